@@ -4,6 +4,7 @@ use nalgebra::{Rotation3, Unit, Vector3};
 use spdcalc::crystal::{CrystalSetup, OpticAxisType};
 use spdcalc::dim::ucum::{M, RAD};
 use spdcalc::math::derivative_at;
+use spdcalc::beam::{IdlerBeam, PumpBeam, SignalBeam};
 use spdcalc::prelude::*;
 use spdcalc::utils::from_celsius_to_kelvin;
 use std::f64::consts::{FRAC_PI_2, PI};
@@ -132,6 +133,15 @@ pub fn optic_axes(n: &Vector3<f64>) -> Vec<Vector3<f64>> {
   ]
 }
 
+thread_local! {
+  /// sample of index_along calls (setup, λ, direction, polarisation, result) for the history-independence replay
+  static REC_INDEX: std::cell::RefCell<Vec<(CrystalSetup, f64, Vector3<f64>, PolarizationType, Option<f64>)>> = std::cell::RefCell::new(Vec::new());
+  /// sample of walkoff_angle calls (crystal, θc, φc, φb, θb, pol, λ, T, result)
+  static REC_WALK: std::cell::RefCell<Vec<(CrystalType, f64, f64, f64, f64, PolarizationType, f64, f64, Option<f64>)>> = std::cell::RefCell::new(Vec::new());
+  static CALLS: std::cell::Cell<usize> = std::cell::Cell::new(0);
+  static SPDC0: SPDC = SPDC::default();
+}
+
 const RADII: [f64; 10] = [1e-2, 1e-3, 1e-4, 1e-5, 1e-6, 1e-7, 1e-8, 1e-9, 0.0, 3e-4];
 
 struct Case<'a> {
@@ -158,7 +168,51 @@ fn make_case<'a>(r: &mut Rng, c: &'a CrystalType, aligned: bool) -> Case<'a> {
 }
 
 fn index(cs: &CrystalSetup, lambda: f64, d: &Vector3<f64>, p: PolarizationType) -> Option<f64> {
-  guard(|| *cs.index_along(lambda * M, Unit::new_unchecked(*d), p))
+  let r = guard(|| *cs.index_along(lambda * M, Unit::new_unchecked(*d), p));
+  let k = CALLS.with(|c| {
+    c.set(c.get() + 1);
+    c.get()
+  });
+  if k % 23 == 0 {
+    REC_INDEX.with(|v| v.borrow_mut().push((cs.clone(), lambda, *d, p, r)));
+  }
+  r
+}
+
+fn same_bits(a: Option<f64>, b: Option<f64>) -> bool {
+  match (a, b) {
+    (Some(x), Some(y)) => x.to_bits() == y.to_bits() || (x.is_nan() && y.is_nan()),
+    (None, None) => true,
+    _ => false,
+  }
+}
+
+/// the same walk-off / index through every API route: plain Beam, the three wrappers, an SPDC object
+fn walkoff_routes(route: usize, beam: &Beam, cs: &CrystalSetup) -> (&'static str, Option<f64>, Option<f64>) {
+  match route % 5 {
+    0 => ("beam", guard(|| *(beam.walkoff_angle(cs) / RAD)), guard(|| *beam.refractive_index(beam.frequency(), cs))),
+    1 => {
+      let b = SignalBeam::new(beam.clone());
+      ("signal", guard(|| *(b.walkoff_angle(cs) / RAD)), guard(|| *b.refractive_index(b.frequency(), cs)))
+    }
+    2 => {
+      let b = IdlerBeam::new(beam.clone());
+      ("idler", guard(|| *(b.walkoff_angle(cs) / RAD)), guard(|| *b.refractive_index(b.frequency(), cs)))
+    }
+    3 => {
+      let b = PumpBeam::new(beam.clone());
+      ("pump", guard(|| *(b.walkoff_angle(cs) / RAD)), guard(|| *b.refractive_index(b.frequency(), cs)))
+    }
+    _ => {
+      let mut spdc = SPDC0.with(|s| s.clone());
+      spdc.crystal_setup = cs.clone();
+      spdc.pump = PumpBeam::new(beam.clone());
+      spdc.signal = SignalBeam::new(beam.clone());
+      let rho = guard(|| *(spdc.pump.walkoff_angle(&spdc.crystal_setup) / RAD));
+      let nb = guard(|| *spdc.signal.refractive_index(spdc.signal.frequency(), &spdc.crystal_setup));
+      ("spdc", rho, nb)
+    }
+  }
 }
 
 fn outf(x: Option<f64>) -> String {
@@ -325,7 +379,15 @@ fn walkoff_case(ctx: &mut Ctx, c: &CrystalType, theta: f64, phi: f64, bphi: f64,
   let beam = Beam::new(p, bphi * RAD, btheta * RAD, lambda * M, 100e-6 * M);
   let n = *cs.crystal.get_indices(beam.vacuum_wavelength(), cs.temperature);
   let d = beam.direction().into_inner();
-  let rho = guard(|| *(beam.walkoff_angle(&cs) / RAD));
+  let route = CALLS.with(|c| {
+    c.set(c.get() + 1);
+    c.get()
+  });
+  let (route_name, rho, nb) = walkoff_routes(route, &beam, &cs);
+  if route % 3 == 0 {
+    REC_WALK.with(|v| v.borrow_mut().push((c.clone(), theta, phi, bphi, btheta, p, lambda, t_c, rho)));
+  }
+  ctx.count(&format!("walkoff/route={}", route_name));
   ctx.count(&format!("walkoff/region={}", region));
   ctx.k(
     "walkoff",
@@ -336,11 +398,10 @@ fn walkoff_case(ctx: &mut Ctx, c: &CrystalType, theta: f64, phi: f64, bphi: f64,
     &outf(rho),
   );
   let det = format!(
-    "crystal={} ctheta={:e} cphi={:e} bphi={:e} btheta={:e} lambda={:e} T={} pol={} region={} nx={} ny={} nz={} rho={:?}",
-    c, theta, phi, bphi, btheta, lambda, t_c, pol_tok(p), region, n.x, n.y, n.z, rho
+    "crystal={} ctheta={:e} cphi={:e} bphi={:e} btheta={:e} lambda={:e} T={} pol={} region={} route={} nx={} ny={} nz={} rho={:?}",
+    c, theta, phi, bphi, btheta, lambda, t_c, pol_tok(p), region, route_name, n.x, n.y, n.z, rho
   );
   // Beam::refractive_index = index_along at the beam's own direction and wavelength (same K op)
-  let nb = guard(|| *beam.refractive_index(beam.frequency(), &cs));
   ctx.k(
     "index_along",
     &format!(
@@ -530,6 +591,80 @@ pub fn run(ctx: &mut Ctx) {
     }
   }
 
+  // ---------------------------------------------------------------- ONE setup object, exactly one parameter changed per step
+  {
+    let steps = if ctx.thorough { 40 } else { 6 };
+    let mut c = CRYSTALS[0].clone();
+    let (mut theta, mut phi, mut t_c, mut lambda) = (0.6, 0.3, 20.0, 1200e-9);
+    let mut d = uniform_sphere(&mut ctx.rng);
+    let mut cs = setup(&c, theta, phi, t_c);
+    for kind in 0..6usize {
+      for _ in 0..steps {
+        match kind {
+          0 => {
+            c = ctx.rng.pick(&CRYSTALS).clone();
+            cs.crystal = c.clone();
+          }
+          1 => {
+            t_c = gen_temp(&mut ctx.rng);
+            cs.temperature = from_celsius_to_kelvin(t_c);
+          }
+          2 => lambda = ctx.rng.range(1000e-9, 1500e-9), // inside every crystal's window
+          3 => {
+            theta = gen_crystal_angle(&mut ctx.rng);
+            cs.theta = theta * RAD;
+          }
+          4 => {
+            phi = gen_crystal_angle(&mut ctx.rng);
+            cs.phi = phi * RAD;
+          }
+          _ => d = uniform_sphere(&mut ctx.rng),
+        }
+        let n = *cs.crystal.get_indices(lambda * M, cs.temperature);
+        let k = Case { c: &c, cs: cs.clone(), theta, phi, lambda, t_c, n };
+        // evaluate on the long-lived object itself first (its result must equal the fresh clone's)
+        let on_lived = index(&cs, lambda, &d, PolarizationType::Ordinary);
+        let on_clone = index(&k.cs, lambda, &d, PolarizationType::Ordinary);
+        ctx.s(
+          "C02.history_independent",
+          same_bits(on_lived, on_clone),
+          "index_along/history-dependent",
+          &detail(&k, &d, &format!("scan-{}", kind), &format!("pol=o lived={:?} fresh={:?}", on_lived, on_clone)),
+        );
+        direction_case(ctx, &k, &d, &format!("scan-{}", kind));
+      }
+    }
+    // different crystals interleaved at bit-identical arguments
+    for _round in 0..(if ctx.thorough { 6 } else { 2 }) {
+      for c in CRYSTALS.iter() {
+        let cs = setup(c, theta, phi, t_c);
+        let n = *cs.crystal.get_indices(lambda * M, cs.temperature);
+        let k = Case { c, cs, theta, phi, lambda, t_c, n };
+        direction_case(ctx, &k, &d, "interleaved");
+      }
+    }
+  }
+
+  // ---------------------------------------------------------------- exact boundary angles (0, −0, ±90°, ±180°, 360°)
+  {
+    let b_angles = [0.0, -0.0, FRAC_PI_2, -FRAC_PI_2, PI, -PI, 2.0 * PI];
+    let n_c = if ctx.thorough { CRYSTALS.len() } else { 3 };
+    for c in CRYSTALS.iter().take(n_c) {
+      let lambda = gen_lambda(&mut ctx.rng, c);
+      for th in b_angles.iter() {
+        for ph in b_angles.iter() {
+          let cs = setup(c, *th, *ph, 20.0);
+          let n = *cs.crystal.get_indices(lambda * M, cs.temperature);
+          let k = Case { c, cs, theta: *th, phi: *ph, lambda, t_c: 20.0, n };
+          for (bp, bt) in [(0.0, 0.0), (0.0, FRAC_PI_2), (FRAC_PI_2, FRAC_PI_2), (PI, FRAC_PI_2), (0.0, PI), (PI, 0.0), (-0.0, -FRAC_PI_2), (3.0 * FRAC_PI_2, 0.3)] {
+            let d = spdcalc::beam::direction_from_polar(bp * RAD, bt * RAD).into_inner();
+            direction_case(ctx, &k, &d, "boundary");
+          }
+        }
+      }
+    }
+  }
+
   // ---------------------------------------------------------------- derivative_at on test functions
   for (name, f) in [
     ("sin", (|x: f64| x.sin()) as fn(f64) -> f64),
@@ -606,6 +741,46 @@ pub fn run(ctx: &mut Ctx) {
         let t_c = gen_temp(&mut ctx.rng);
         walkoff_case(ctx, c, theta, phi, bphi, btheta, *p, lambda, t_c, "any");
       }
+      // exact boundary angles of crystal and beam
+      let lambda = gen_lambda(&mut ctx.rng, c);
+      for th in [0.0, -0.0, FRAC_PI_2, -FRAC_PI_2, PI, -PI] {
+        for ph in [0.0, FRAC_PI_2, PI, -PI] {
+          for (bp, bt) in [(0.0, 0.0), (PI, 0.0), (FRAC_PI_2, 0.0), (0.0, -0.0), (PI, 0.1), (0.0, FRAC_PI_2), (PI, PI)] {
+            walkoff_case(ctx, c, th, ph, bp, bt, *p, lambda, 20.0, "boundary");
+          }
+        }
+      }
     }
+  }
+
+  // ---------------------------------------------------------------- history independence: replay a sample backwards
+  let rec = REC_INDEX.with(|v| std::mem::take(&mut *v.borrow_mut()));
+  for (cs, lambda, d, p, r0) in rec.into_iter().rev() {
+    let fresh = cs.clone();
+    let r1 = guard(|| *fresh.index_along(lambda * M, Unit::new_unchecked(d), p));
+    ctx.s(
+      "C02.history_independent",
+      same_bits(r0, r1),
+      "index_along/history-dependent",
+      &format!(
+        "crystal={} ctheta={:e} cphi={:e} T_K={:e} lambda={:e} dx={:e} dy={:e} dz={:e} pol={} first={:?} replay={:?}",
+        cs.crystal, *(cs.theta / RAD), *(cs.phi / RAD), *(cs.temperature / spdcalc::dim::ucum::K), lambda, d.x, d.y, d.z, pol_tok(p), r0, r1
+      ),
+    );
+  }
+  let rec = REC_WALK.with(|v| std::mem::take(&mut *v.borrow_mut()));
+  for (c, theta, phi, bphi, btheta, p, lambda, t_c, r0) in rec.into_iter().rev() {
+    let cs = setup(&c, theta, phi, t_c);
+    let beam = Beam::new(p, bphi * RAD, btheta * RAD, lambda * M, 100e-6 * M);
+    let r1 = guard(|| *(beam.walkoff_angle(&cs) / RAD));
+    ctx.s(
+      "C02.history_independent",
+      same_bits(r0, r1),
+      "walkoff/history-dependent",
+      &format!(
+        "crystal={} ctheta={:e} cphi={:e} bphi={:e} btheta={:e} lambda={:e} T={} pol={} first={:?} replay={:?}",
+        c, theta, phi, bphi, btheta, lambda, t_c, pol_tok(p), r0, r1
+      ),
+    );
   }
 }
